@@ -7,25 +7,49 @@ over constructed cell objects `PCell`).  Pruning: Proofs/Prune.lean (`PruneRel`)
 the proof cell's 256-bit field); soundness takes a LOCAL no-collision hypothesis on the representations at hand.
 -/
 import TonVerif.Proofs.Merkle
+import TonVerif.Proofs.Binding
+import TonVerif.Proofs.PruneWF
 import TonVerif.Proofs.OrdCell
 
 namespace TonVerif.Properties.C11
 open TonVerif TonVerif.Model TonVerif.Proofs.CellSpec TonVerif.Proofs.Prune TonVerif.Proofs.Merkle
 
-/-- COMPLETENESS (generic check and block-header check). Let `t` be any tree with spec values `s`, `p` ANY pruning
-of it (`PruneRel H 1 t p`: any set of subtrees replaced by pruned branches, deeper levels under inner Merkle cells),
-and wrap `p` in the Merkle proof cell naming `t`'s level-0 hash and depth.  If that proof is a spec-valid tree (sizes,
-depth ≤ 1023) it can be constructed, `check_proof(proof, hash t)` returns, its only child is the object of `p`, and
-`check_block_header_proof(proof[0], hash t)` returns.  No assumption on `H` except that the root hash is 32 bytes. -/
+/-- COMPLETENESS (generic check and block-header check). Let `t` be any spec-valid tree of level 0 (a block, a shard
+state, ...; inner Merkle cells and the pruned branches below them allowed) with spec values `s`, and `p` ANY pruning of
+it (`PruneRel H 1 t p`: any set of subtrees replaced by pruned branches, deeper levels under inner Merkle cells).  Wrap
+`p` in the Merkle proof cell naming `t`'s level-0 hash and depth.  Then that proof can be constructed,
+`check_proof(proof, hash t)` returns, its only child is the object of `p`, and
+`check_block_header_proof(proof[0], hash t)` returns.  Validity of the proof tree is DERIVED (`prune_treeWF`), not
+assumed.  Remaining side conditions: the root hash is 32 valid bytes (true of SHA-256; nothing else about `H` is used)
+and `depth t ≤ 1022` (the proof cell is one deeper than `t`, and cells deeper than 1023 cannot be built). -/
 theorem c11_complete (H : Bytes → Bytes) (t p : Cell) (s : Spec.SInfo)
-    (hs : specInfo H t = some s) (hrel : PruneRel H 1 t p)
-    (wfp : TreeWF H (merkleProofCell (s.hashAt 0) (s.depthAt 0) p))
-    (h32 : (s.hashAt 0).length = 32 ∧ Bytes.WF (s.hashAt 0)) (hd : s.depthAt 0 < 65536) :
+    (wft : TreeWF H t) (hs : specInfo H t = some s) (hlev : s.mask = 0) (hrel : PruneRel H 1 t p)
+    (h32 : (s.hashAt 0).length = 32 ∧ Bytes.WF (s.hashAt 0)) (hd : s.depthAt 0 ≤ 1022) :
     ∃ c r, PCell.ofCell H (merkleProofCell (s.hashAt 0) (s.depthAt 0) p) = some c ∧ c.refs = [r] ∧
       PCell.ofCell H p = some r ∧
       checkProof c (s.hashAt 0) = true ∧ checkBlockHeaderProof r (s.hashAt 0) = true := by
   obtain ⟨sp, hsp, hinv⟩ := prune_invariant H 1 t p s hrel hs
   obtain ⟨h0, d0, _⟩ := hinv 0 (by omega)
+  -- the pruned tree and the proof cell over it are spec-valid
+  obtain ⟨wfc, hle⟩ := TonVerif.Proofs.PruneWF.prune_treeWF H 1 t p s (Nat.le_refl _) wft hs (by rw [hlev]; decide) hrel
+  have wfp : TreeWF H (merkleProofCell (s.hashAt 0) (s.depthAt 0) p) := by
+    unfold merkleProofCell
+    rw [TreeWF]
+    refine ⟨⟨wfc, trivial⟩, .merkleProof, [sp], by decide, by simp [specInfos, hsp], ?_⟩
+    have hmask7 := TonVerif.Proofs.PruneWF.treeWF_mask_le H p sp wfc hsp
+    refine ⟨?_, by simp, ?_, ?_, by simp, by simp, by simp, by simp⟩
+    · rw [length_bytesToBits, mproofData_length _ _ h32.1]; omega
+    · intro c hc; simp at hc; subst hc; exact hmask7
+    · intro _ l
+      rw [node_plain H .merkleProof _ _ (by decide)]
+      show Spec.plainDepthAt .merkleProof [sp] _ l ≤ 1023
+      obtain ⟨L, _, _, _, e⟩ := TonVerif.Proofs.PruneWF.plainDepthAt_top .merkleProof [sp]
+        (Spec.nodeMask .merkleProof (bytesToBits (mproofData (s.hashAt 0) (s.depthAt 0))) [sp]) l
+      rw [e, TonVerif.Proofs.PruneWF.depthOver_single]
+      have h1 := hle sp hsp (L + Spec.Kind.mu .merkleProof)
+      have h2 := TonVerif.Proofs.PruneWF.depth_level0 H t s hs hlev (L + Spec.Kind.mu .merkleProof)
+      omega
+  have hd : s.depthAt 0 < 65536 := by omega
   -- the proof cell and its child can be constructed
   obtain ⟨i, si, hi, hsi, hag⟩ := tree_agrees H _ wfp
   unfold merkleProofCell at hi
@@ -36,9 +60,6 @@ theorem c11_complete (H : Bytes → Bytes) (t p : Cell) (s : Spec.SInfo)
     have := construct_fields H _ _ _ _ hi
     exact ⟨this.1, this.2.1⟩
   -- the child reports the spec values of `p`, which are those of `t` at level 0
-  have wfc : TreeWF H p := by
-    rw [merkleProofCell, TreeWF] at wfp
-    exact wfp.1.1
   obtain ⟨ip, sp', hip, hsp', hagp⟩ := tree_agrees H p wfc
   rw [hsp] at hsp'; cases hsp'
   have hrinfo : r.info = ip := by
@@ -240,40 +261,75 @@ theorem c11_account_complete (locate : PCell → Bytes → Option PCell) (p0 p1 
   simp [checkAccountProof, h0, hhdr, hsh, hst, hs, h1, hl, hh]
 
 /-! ## binding: what an accepted hash pins down -/
+open TonVerif.Proofs.Binding
 
-/-- SOUNDNESS CORE, proved part (level 0, trees without inner Merkle proof/update cells: ordinary cells, library
-cells, pruned branches of any mask).  Assume `H` has 32-byte output and does not collide between the level-0
-representations of the non-pruned cells of `p` and those of `t` (a LOCAL hypothesis on finitely many byte strings).
-If `p` and `t` have the same level-0 hash then `Agree0 H p t`: going down from the roots, corresponding cells have
-the same level-0 hash, and each pair is either (a pruned branch, the subtree whose hash it carries) or two cells of
-the same type with the same data bytes, the same bit-length descriptor, the same number of references and
-pairwise agreeing children.  So in a proof accepted for `hash t`, every unpruned cell is the cell of `t` at that
-position (any changed bit or reference breaks agreement), and a pruned branch stores exactly the hash of the
-subtree it replaces.
+/-- SOUNDNESS CORE (general: every level `l`, trees with ordinary, library, pruned-branch, Merkle proof and Merkle
+update cells in any nesting).  Assume `H` has 32-byte output and does not collide between the representations
+occurring in `p` and those occurring in `t` (`reprs`: of each non-pruned cell its representation at every significant
+level, of each pruned branch its own representation — a LOCAL hypothesis on finitely many byte strings), and both trees
+have the shape of valid bags (`Shape`: ≤ 4 references, exotic cells with their proper reference counts, pruned branches
+with non-zero mask holding all hashes they declare).  If `p` and `t` have the same level-`l` hash then `Agree H l p t`:
+going down from the roots, corresponding cells have the same hash at the level they are looked at (`L + μ` below a
+cell hashed at level `L`; all significant `L ≤ l`, because level-`L` hashes are chained over the lower ones), and each
+pair is either (a pruned branch answering with a STORED hash, the subtree whose hash that is) or two cells of the same
+type with the same BIT STRING, the same number of references and pairwise agreeing children. -/
+theorem c11_binding (H : Bytes → Bytes) (h32 : ∀ x, (H x).length = 32) (p t : Cell) (l : Nat) (sp st : Spec.SInfo)
+    (shp : Shape p) (sht : Shape t) (hsp : specInfo H p = some sp) (hst : specInfo H t = some st)
+    (nocoll : ∀ x y, x ∈ reprs H p → y ∈ reprs H t → H x = H y → x = y)
+    (hh : sp.hashAt l = st.hashAt l) : Agree H l p t :=
+  binding_aux H h32 p t l sp st shp sht hsp hst nocoll hh
 
-FULL STATEMENT (not proved): the same for every level `l` and trees containing Merkle proof/update cells,
-`hashAt p l = hashAt t l → Agree l p t` with children compared at level `l + μ`.  Missing cases: a Merkle cell
-inside the tree (children enter at level 1, whose hash is chained over the level-0 hash, so the induction must carry
-all significant levels ≤ l at once), and therefore also levels l ≥ 1. -/
-theorem c11_binding_partial (H : Bytes → Bytes) (h32 : ∀ x, (H x).length = 32) (p t : Cell) (sp st : Spec.SInfo)
-    (mp : MFree p) (mt : MFree t) (hsp : specInfo H p = some sp) (hst : specInfo H t = some st)
-    (nocoll : ∀ x y, x ∈ reprs0 H p → y ∈ reprs0 H t → H x = H y → x = y)
-    (hh : sp.hashAt 0 = st.hashAt 0) : Agree0 H p t :=
-  binding0_aux H h32 p t sp st mp mt hsp hst nocoll hh
+/-- What `Agree` says about one pair of cells neither of which is a pruned branch answering with a stored hash:
+same cell type, same bit string (not just the same padded bytes: `Pad.dataBytes_inj`), same number of references.
+"Any change to the data or structure of an unpruned cell" therefore breaks `Agree`. -/
+theorem c11_binding_bits (H : Bytes → Bytes) (l : Nat) (kp kt : Int) (bp bt : Bits) (rp rt : List Cell)
+    (h : Agree H l (.mk kp bp rp) (.mk kt bt rt)) (hp : ¬ StoredAt kp bp l) (ht : ¬ StoredAt kt bt l) :
+    kp = kt ∧ bp = bt ∧ rp.length = rt.length := by
+  rw [Agree] at h
+  rcases h.2 with h1 | h1 | h1
+  · exact absurd h1 hp
+  · exact absurd h1 ht
+  · exact ⟨h1.1, h1.2.1, h1.2.2.1⟩
 
-/-- SOUNDNESS of `check_proof` (partial in the same sense as `c11_binding_partial`): if the object of the spec-valid
-proof tree `.mk kind bits [p]` passes `check_proof(·, h)`, then it is a well-formed Merkle proof cell naming `h`,
-and for EVERY tree `t` (without inner Merkle cells) whose level-0 hash is `h`, the proof body `p` agrees with `t`
-(`Agree0`) — under the local no-collision hypothesis.  Each listed rejection follows by contraposition: a changed
-bit/reference of an unpruned cell or a substituted pruned hash contradicts `Agree0`; a different expected hash and
-a non-proof cell are `c11_reject_wrong_hash`, `c11_reject_not_proof`. -/
-theorem c11_sound_partial (H : Bytes → Bytes) (h32 : ∀ x, (H x).length = 32) (kind : Int) (bits : Bits) (p t : Cell)
+/-- ... and about the children: at every level `L ≤ l` at which the cell's hash is computed, the children agree
+pairwise at level `L + μ` (μ = 1 below Merkle proof/update cells). In particular at `L = 0`. -/
+theorem c11_binding_children (H : Bytes → Bytes) (l : Nat) (kp kt : Int) (bp bt : Bits) (rp rt : List Cell) (sp : Spec.SInfo)
+    (h : Agree H l (.mk kp bp rp) (.mk kt bt rt)) (hp : ¬ StoredAt kp bp l) (ht : ¬ StoredAt kt bt l)
+    (hsp : specInfo H (.mk kp bp rp) = some sp) (L : Nat) (hL : L ≤ l) (hs : sigB sp.mask L = true) :
+    Agrees H (L + muOf kp) rp rt := by
+  rw [Agree] at h
+  rcases h.2 with h1 | h1 | h1
+  · exact absurd h1 hp
+  · exact absurd h1 ht
+  · exact h1.2.2.2 sp hsp L hL hs
+
+/-- a pruned branch that answers level `l` with a stored hash agrees with `t` only if that hash is `t`'s level-`l`
+hash: a substituted pruned hash breaks `Agree` -/
+theorem c11_binding_pruned_hash (H : Bytes → Bytes) (l : Nat) (p t : Cell) (sp st : Spec.SInfo)
+    (h : Agree H l p t) (hsp : specInfo H p = some sp) (hst : specInfo H t = some st) : sp.hashAt l = st.hashAt l := by
+  cases p with
+  | mk kp bp rp =>
+    cases t with
+    | mk kt bt rt =>
+      rw [Agree] at h
+      obtain ⟨⟨sp', st', h1, h2, h3⟩, _⟩ := h
+      rw [hsp] at h1; rw [hst] at h2
+      cases h1; cases h2
+      exact h3
+
+/-- SOUNDNESS of `check_proof`: if the object of the spec-valid proof tree `.mk kind bits [p]` passes
+`check_proof(·, h)`, then it is a well-formed Merkle proof cell naming `h`, and for EVERY tree `t` (any cell types)
+whose level-0 hash is `h`, the proof body `p` agrees with `t` at level 0 (`Agree`, see `c11_binding`) — under the
+local no-collision hypothesis.  Each listed rejection follows by contraposition: a changed bit / type / reference of
+an unpruned cell (`c11_reject_changed`) or a substituted pruned hash (`c11_binding_pruned_hash`) contradicts `Agree`; a
+different expected hash and a non-proof cell are `c11_reject_wrong_hash`, `c11_reject_not_proof`. -/
+theorem c11_sound (H : Bytes → Bytes) (h32 : ∀ x, (H x).length = 32) (kind : Int) (bits : Bits) (p t : Cell)
     (c : PCell) (h : Bytes) (sp st : Spec.SInfo)
     (wf : TreeWF H (.mk kind bits [p])) (hc : PCell.ofCell H (.mk kind bits [p]) = some c)
     (hacc : checkProof c h = true)
-    (mp : MFree p) (mt : MFree t) (hsp : specInfo H p = some sp) (hst : specInfo H t = some st) (ht : st.hashAt 0 = h)
-    (nocoll : ∀ x y, x ∈ reprs0 H p → y ∈ reprs0 H t → H x = H y → x = y) :
-    c.info.kind = kMerkleProof ∧ pySlice c.data 1 33 = h ∧ Agree0 H p t := by
+    (shp : Shape p) (sht : Shape t) (hsp : specInfo H p = some sp) (hst : specInfo H t = some st) (ht : st.hashAt 0 = h)
+    (nocoll : ∀ x y, x ∈ reprs H p → y ∈ reprs H t → H x = H y → x = y) :
+    c.info.kind = kMerkleProof ∧ pySlice c.data 1 33 = h ∧ Agree H 0 p t := by
   obtain ⟨hk, hs, _, r, d, hr, hh, _, _⟩ := c11_sound_shape c h hacc
   refine ⟨hk, hs, ?_⟩
   -- the child object is the object of `p` and reports the spec hash of `p`
@@ -296,27 +352,71 @@ theorem c11_sound_partial (H : Bytes → Bytes) (h32 : ∀ x, (H x).length = 32)
     simpa using this
   rw [hri, (hag.2 0).1] at hh
   simp only [Option.some.injEq] at hh
-  exact c11_binding_partial H h32 p t sp st mp mt hsp hst nocoll (hh.trans ht.symm)
+  exact c11_binding H h32 p t 0 sp st shp sht hsp hst nocoll (hh.trans ht.symm)
+
+/-- SOUNDNESS at EVERY position: under the hypotheses of `c11_sound`, following any path of reference indices
+simultaneously in the proof body `p` and in `t` — until a pruned branch answering with a stored hash is met — both trees
+have the same number of references at each step and the cells reached `Agree` (so, when neither is such a pruned
+branch: same type, same bit string, same reference count, `c11_binding_bits`).  Every unpruned cell of the proof is
+reached by such a path: it IS the cell of `t` at that position. -/
+theorem c11_sound_everywhere (H : Bytes → Bytes) (h32 : ∀ x, (H x).length = 32) (kind : Int) (bits : Bits) (p t : Cell)
+    (c : PCell) (h : Bytes) (sp st : Spec.SInfo)
+    (wf : TreeWF H (.mk kind bits [p])) (hc : PCell.ofCell H (.mk kind bits [p]) = some c)
+    (hacc : checkProof c h = true)
+    (shp : Shape p) (sht : Shape t) (hsp : specInfo H p = some sp) (hst : specInfo H t = some st) (ht : st.hashAt 0 = h)
+    (nocoll : ∀ x y, x ∈ reprs H p → y ∈ reprs H t → H x = H y → x = y) (π : List Nat) :
+    AgreeAlong H π 0 p t :=
+  agree_along H π 0 p t (c11_sound H h32 kind bits p t c h sp st wf hc hacc shp sht hsp hst ht nocoll).2.2
+
+/-- REJECTION of a changed unpruned cell (root of the proof body; deeper cells through `c11_binding_children`): if the
+root of `p` and the root of `t` differ in type, in any data bit or in the number of references, and neither is a pruned
+branch standing for the other, then `check_proof` raises for `hash t` (same hypotheses as `c11_sound`). -/
+theorem c11_reject_changed (H : Bytes → Bytes) (h32 : ∀ x, (H x).length = 32) (kind : Int) (bits : Bits)
+    (kp kt : Int) (bp bt : Bits) (rp rt : List Cell) (c : PCell) (sp st : Spec.SInfo)
+    (wf : TreeWF H (.mk kind bits [.mk kp bp rp])) (hc : PCell.ofCell H (.mk kind bits [.mk kp bp rp]) = some c)
+    (shp : Shape (.mk kp bp rp)) (sht : Shape (.mk kt bt rt))
+    (hsp : specInfo H (.mk kp bp rp) = some sp) (hst : specInfo H (.mk kt bt rt) = some st)
+    (nocoll : ∀ x y, x ∈ reprs H (.mk kp bp rp) → y ∈ reprs H (.mk kt bt rt) → H x = H y → x = y)
+    (hp : ¬ StoredAt kp bp 0) (ht : ¬ StoredAt kt bt 0)
+    (hdiff : kp ≠ kt ∨ bp ≠ bt ∨ rp.length ≠ rt.length) :
+    checkProof c (st.hashAt 0) = false := by
+  cases hacc : checkProof c (st.hashAt 0) with
+  | false => rfl
+  | true =>
+    obtain ⟨_, _, hag⟩ := c11_sound H h32 kind bits _ _ c _ sp st wf hc hacc shp sht hsp hst rfl nocoll
+    obtain ⟨e1, e2, e3⟩ := c11_binding_bits H 0 kp kt bp bt rp rt hag hp ht
+    rcases hdiff with h | h | h
+    · exact absurd e1 h
+    · exact absurd e2 h
+    · exact absurd e3 h
 
 /-! Non-vacuity of the binding hypotheses: a toy hash with 32-byte output that is injective on the representations
-at hand (it returns the first 32 bytes, zero padded), a two-cell tree against itself. -/
+at hand (it returns the first 32 bytes, zero padded); the tree has an inner Merkle proof cell whose child (looked at on
+level 1) holds a pruned branch of mask 1, so a cell with two significant levels and a chained hash occurs
+(`reprs toyH treeB` has 7 entries). -/
 def toyH : Bytes → Bytes := fun x => (x ++ List.replicate 32 0).take 32
 def leafA : Cell := .mk (-1) [true, false] []
-def treeA : Cell := .mk (-1) [true] [leafA]
+def pbB : Cell := .mk 1 (bytesToBits ([1, 1] ++ List.replicate 32 7 ++ [0, 0])) []
+def nodeB : Cell := .mk (-1) [false] [pbB, leafA]
+def mB : Cell := .mk 3 [true, true] [nodeB]
+def treeB : Cell := .mk (-1) [true] [mB, leafA]
 
-example : (∀ x, (toyH x).length = 32) ∧ MFree treeA ∧ (∃ s, specInfo toyH treeA = some s) ∧
-    (∀ x y, x ∈ reprs0 toyH treeA → y ∈ reprs0 toyH treeA → toyH x = toyH y → x = y) := by
-  refine ⟨by intro x; simp [toyH], by simp [treeA, leafA, MFree, MFrees], by simp [treeA, leafA, specInfo, specInfos, kindOf], ?_⟩
-  have hr : reprs0 toyH treeA = [repr0 .ordinary [true] [Spec.node toyH .ordinary [true, false] []], repr0 .ordinary [true, false] []] := by
-    simp [treeA, leafA, reprs0, reprs0s, specInfos, specInfo, kindOf]
-  rw [hr]
-  intro x y hx hy
-  simp only [List.mem_cons, List.mem_nil_iff, or_false] at hx hy
-  rcases hx with rfl | rfl <;> rcases hy with rfl | rfl <;> intro he
-  · rfl
-  · exact absurd he (by decide +kernel)
-  · exact absurd he (by decide +kernel)
-  · rfl
+/-- the example tree has the shape of a valid bag (hypothesis `Shape` of `c11_binding`) -/
+theorem treeB_shape : Shape treeB := by
+  have hm : pmaskOf (bytesToBits ([1, 1] ++ List.replicate 32 7 ++ [0, 0])) = 1 := by decide +kernel
+  have hp : Spec.popcount 1 = 1 := by simp [Spec.popcount]
+  have hl : (bytesToBits ([1, 1] ++ List.replicate 32 7 ++ [0, 0])).length = 288 := by
+    rw [length_bytesToBits]; simp
+  simp only [treeB, mB, nodeB, pbB, leafA, Shape, Shapes, hm, hp, hl]
+  simp
+
+example : (∀ x, (toyH x).length = 32) ∧ Shape treeB ∧ (∃ s, specInfo toyH treeB = some s) ∧
+    (reprs toyH treeB).length = 7 ∧
+    (∀ x y, x ∈ reprs toyH treeB → y ∈ reprs toyH treeB → toyH x = toyH y → x = y) := by
+  refine ⟨by intro x; simp [toyH], treeB_shape,
+    by simp [treeB, mB, nodeB, pbB, leafA, specInfo, specInfos, kindOf], by decide +kernel, ?_⟩
+  have key : ∀ x ∈ reprs toyH treeB, ∀ y ∈ reprs toyH treeB, toyH x = toyH y → x = y := by decide +kernel
+  exact fun x y hx hy => key x hx y hy
 
 /-! Non-vacuity of `c11_complete`: the hypotheses hold for a concrete cell (pruning nothing) with the toy hash. -/
 def sLeafA : Spec.SInfo := Spec.node toyH .ordinary [true, false] []
@@ -331,32 +431,19 @@ theorem leafA_nodeWF : NodeWF toyH .ordinary [true, false] [] := by
   rw [TonVerif.Proofs.OrdCell.plainDepthAt_zero]
   decide
 
-example : specInfo toyH leafA = some sLeafA ∧ PruneRel toyH 1 leafA leafA ∧
-    TreeWF toyH (merkleProofCell (sLeafA.hashAt 0) (sLeafA.depthAt 0) leafA) ∧
-    ((sLeafA.hashAt 0).length = 32 ∧ Bytes.WF (sLeafA.hashAt 0)) ∧ sLeafA.depthAt 0 < 65536 := by
+example : TreeWF toyH leafA ∧ specInfo toyH leafA = some sLeafA ∧ sLeafA.mask = 0 ∧ PruneRel toyH 1 leafA leafA ∧
+    ((sLeafA.hashAt 0).length = 32 ∧ Bytes.WF (sLeafA.hashAt 0)) ∧ sLeafA.depthAt 0 ≤ 1022 := by
   have hlen : (sLeafA.hashAt 0).length = 32 := by
     show (Spec.plainHashAt toyH .ordinary [true, false] [] (Spec.nodeMask .ordinary [true, false] []) 0).length = 32
     simp only [Spec.plainHashAt, toyH, List.length_take, List.length_append, List.length_replicate]
     omega
   have hwf : Bytes.WF (sLeafA.hashAt 0) := by decide +kernel
-  refine ⟨by simp [leafA, sLeafA, specInfo, specInfos, kindOf], ?_, ?_, ⟨hlen, hwf⟩, by decide +kernel⟩
+  refine ⟨?_, by simp [leafA, sLeafA, specInfo, specInfos, kindOf], rfl, ?_, ⟨hlen, hwf⟩, by decide +kernel⟩
+  · unfold leafA
+    rw [TreeWF]
+    exact ⟨trivial, .ordinary, [], by decide, by simp [specInfos], leafA_nodeWF⟩
   · unfold leafA
     rw [PruneRel]
     exact Or.inr ⟨.ordinary, [], by decide, rfl, by rw [PruneRels]⟩
-  · unfold merkleProofCell leafA
-    rw [TreeWF]
-    refine ⟨⟨?_, trivial⟩, .merkleProof, [sLeafA], by decide, by simp [specInfos, specInfo, kindOf, sLeafA], ?_⟩
-    · rw [TreeWF]
-      exact ⟨trivial, .ordinary, [], by decide, by simp [specInfos], leafA_nodeWF⟩
-    · have hm : Spec.nodeMask .merkleProof (bytesToBits (mproofData (sLeafA.hashAt 0) (sLeafA.depthAt 0))) [sLeafA] = 0 := by
-        decide +kernel
-      refine ⟨?_, by simp, ?_, ?_, by simp, by simp, by simp, by simp⟩
-      · rw [length_bytesToBits, mproofData_length _ _ hlen]; omega
-      · intro c hc; simp at hc; subst hc; decide +kernel
-      · intro _ l
-        rw [node_plain toyH .merkleProof _ _ (by decide)]
-        simp only [hm]
-        rw [TonVerif.Proofs.OrdCell.plainDepthAt_zero]
-        decide +kernel
 
 end TonVerif.Properties.C11
